@@ -117,7 +117,7 @@ def drv_ws_tokens(c, ctx, col):
     except (W.Reject, W.Unspec):
         raise Skip()
     icpt = not c.flag() if len(tokens) <= ctx["both_icpt_upto"] else True
-    variant = place(c, tokens, LT_FULL if len(tokens) <= 3 else LT_SHORT)
+    variant = place(c, tokens, LT_FULL if len(tokens) <= 3 else (LT_SHORT if len(tokens) <= 4 else [("", "")]))
     check_ws(col, "ws-tokens", tokens, variant, icpt, avail)
     col.sample({"tokens": tokens, "variant": variant, "include_intercept": icpt})
 
@@ -613,9 +613,9 @@ def subchecks(tier, seed):
             bounds={"alphabet": SIGMA_Q, "max_tokens": 4, "white_space": ["", " ", "\\t\\n"]}),
         Sub("ws-grammar", drv_ws_grammar, {"k": 1, "kmin": 0, "leaves": leaves_all}, shard_depth=3,
             bounds={"max_binary_operators": 1, "leaves": leaves_all, "shapes": ["T", "y ~ T", "T | b"]}),
-        Sub("ws-grammar-2", drv_ws_grammar, {"k": 2, "kmin": 2, "leaves": ["`x y`", "f(a)"] if quick else leaves_all[:5], "ws": WS[:2],
+        Sub("ws-grammar-2", drv_ws_grammar, {"k": 2, "kmin": 2, "leaves": ["`x y`", "f(a)"] if quick else leaves_all[:4], "ws": WS[:2],
                                              "lead_trail": False}, shard_depth=4,
-            bounds={"binary_operators": 2, "leaves": ["`x y`", "f(a)"] if quick else leaves_all[:5], "white_space": ["", " "]}),
+            bounds={"binary_operators": 2, "leaves": ["`x y`", "f(a)"] if quick else leaves_all[:4], "white_space": ["", " "]}),
         Sub("names", drv_names, {"L": 3 if quick else 4, "forms_longest": [f for f in NAME_FORMS if f[0] in ("alone", "star", "call", "brace-twice")]},
             shard_depth=3, bounds={"alphabet": NAME_CHARS, "max_length": 3 if quick else 4, "forms": [f[1] for f in NAME_FORMS],
                                    "forms_at_the_maximal_length": ["`%s`", "`%s`*zz", "double(`%s`)", "{`%s` * `%s`}"]}),
@@ -634,7 +634,7 @@ def subchecks(tier, seed):
                                 "note": "VERIF_SEED-selected exhaustive slice of the thorough scope"}))
     else:
         subs.append(Sub("ws-tokens-5", drv_ws_tokens, {"sigma": SIGMA_Q, "L": 5, "Lmin": 5, "both_icpt_upto": 0}, shard_depth=3,
-                        bounds={"alphabet": SIGMA_Q, "tokens": 5}))
+                        bounds={"alphabet": SIGMA_Q, "tokens": 5, "leading_trailing_white_space": "none"}))
         subs.append(Sub("ws-grammar-3", drv_ws_grammar, {"k": 3, "kmin": 3, "leaves": ["a"], "lead_trail": False, "ws": WS[:2], "shapes": 1},
                         shard_depth=4, bounds={"binary_operators": 3, "leaves": ["a"], "max_tokens": 9, "white_space": ["", " "], "shapes": ["T"]}))
     return subs
